@@ -92,9 +92,23 @@ def check(run):
                     why = 'unrecognised guard over m_queue between the enqueue and the start of the sender: ' + r
         run.check(ok and all(q.any_precedes(ip, pushes, s) for s in starts), 'R10', 'queue-sender-start', ip.norm, ip.loc(starts[0]), why or 'the sender is started before the packet is queued',
                   'after the push, size==1 (idle hop) reaches begin_send_next_packet()')
-        # the only way past the push without starting the sender is size > 1 (sender already running)
-        run.check(all(q.must_follow(ip, p, starts + [r for r in q.returns(ip) if any('m_queue.size()' in q.render(ip, a) for a, pp in q.guards_at(ip, r))]) for p in pushes), 'R10', 'queue-sender-start-all-paths', ip.norm, ip.loc(),
-                  'a path enqueues and returns without starting the sender and without the size()>1 test', 'every path after the push starts the sender or is the size()>1 return')
+        # in the abstract state "the hop was idle" (exactly one packet queued after the push) every path from the push
+        # to the exit starts the sender: branches over the queue size are followed along their feasible edge only
+        def size_is_one(atom):
+            r = q.render(ip, q.strip_casts(atom))
+            if r == 'm_queue.empty()':
+                return False
+            if r == 'm_queue.size()':
+                return True
+            c = q.cmp_atom(atom)
+            if c:
+                for lhs, rhs, op in ((c[1], c[2], c[0]), (c[2], c[1], q.SWAP[c[0]])):
+                    if q.render(ip, q.strip_casts(lhs)) == 'm_queue.size()' and q.int_value(rhs) is not None:
+                        k = q.int_value(rhs)
+                        return {'>': 1 > k, '>=': 1 >= k, '<': 1 < k, '<=': 1 <= k, '==': 1 == k, '!=': 1 != k}[op]
+            return None
+        run.check(not any(q.exit_reachable_under(ip, p, starts, size_is_one) for p in pushes), 'R10', 'queue-sender-start-all-paths', ip.norm, ip.loc(),
+                  'with exactly one packet queued (the hop was idle) a path from the enqueue reaches the end of incoming_packet without starting the sender', 'with size()==1 every path after the push starts the sender')
     cont = [c for c in ns.calls() if c.get('usr') == bs.usr]
     okc = bool(cont)
     for c in cont:
@@ -123,34 +137,36 @@ def check(run):
             run.check(any(q.precedes(bs, c, a) and bs.cfg.node_block(c) == bs.cfg.node_block(a) for c in ex), 'R10', 'queue-timer-armed-before-wait', bs.norm, bs.loc(a), 'async_wait without expires_at in the same block', 'expires_at precedes async_wait')
 
     run.clause('zero bandwidth takes the no-serialisation branch: no division by m_bandwidth is reachable when m_bandwidth == 0')
-    divs = [nn for nn in bs.all_nodes() if nn['k'] == 'bin' and nn['op'] == '/' and 'm_bandwidth' in q.render(bs, nn['rhs'])]
-    if not divs:
+    # divisions whose divisor is m_bandwidth, in the sender itself or in a helper it passes m_bandwidth to
+    divf = [x for x in q.flat_nodes(bs, lambda g, nn: nn['k'] == 'bin' and nn['op'] == '/') if 'm_bandwidth' in q.render(x.owner, x.call['rhs'], names=x.names)]
+    if not divf:
         run.broke('begin_send_next_packet no longer divides by m_bandwidth (idiom changed)')
-    for d in divs:
-        g = q.guards_at(bs, d)
+    for x in divf:
+        d, own = x.call, x.owner
+        g = q.guards_at(bs, x.anchor)
         okz = any(q.render(bs, a) in ('(m_bandwidth == 0)',) and not p for a, p in g) or any(q.render(bs, a) in ('(m_bandwidth != 0)', '(m_bandwidth > 0)') and p for a, p in g)
-        run.check(okz, 'R5', 'zero-bandwidth', bs.norm, bs.loc(d), 'a division by m_bandwidth is reachable with m_bandwidth == 0 (zero means infinitely fast)', 'dominated by m_bandwidth != 0')
+        run.check(okz, 'R5', 'zero-bandwidth', bs.norm, bs.loc(x.anchor), 'a division by m_bandwidth is reachable with m_bandwidth == 0 (zero means infinitely fast)', 'dominated by m_bandwidth != 0')
         # truncation: an integer quotient must not be multiplied afterwards
-        ty = bs.ty(d)
+        ty = own.ty(d)
         if ty in ('double', 'float', 'long double'):
-            run.ok('R5', 'no-amplified-truncation', '%s: %s' % (bs.norm, q.render(bs, d)), bs.loc(d), 'per-byte time computed in floating point')
+            run.ok('R5', 'no-amplified-truncation', '%s: %s' % (bs.norm, q.render(own, d)), own.loc(d), 'per-byte time computed in floating point')
         else:
             amplified = False
-            p = bs.parent(d)
+            p = own.parent(d)
             while p is not None and p['k'] in ('cast', 'construct'):
-                p = bs.parent(p)
+                p = own.parent(p)
             if p is not None and p['k'] == 'bin' and p['op'] == '*':
                 amplified = True
             if p is not None and p['k'] == 'decl':
                 for v in p['vars']:
-                    for x in bs.all_nodes():
-                        if x['k'] == 'ref' and x.get('did') == v.get('did'):
-                            px = bs.parent(x)
+                    for xr in own.all_nodes():
+                        if xr['k'] == 'ref' and xr.get('did') == v.get('did'):
+                            px = own.parent(xr)
                             while px is not None and px['k'] in ('cast', 'construct'):
-                                px = bs.parent(px)
+                                px = own.parent(px)
                             if px is not None and px['k'] == 'bin' and px['op'] == '*':
                                 amplified = True
-            run.check(not amplified, 'R5', 'no-amplified-truncation', '%s: %s' % (bs.norm, q.render(bs, d)), bs.loc(d),
+            run.check(not amplified, 'R5', 'no-amplified-truncation', '%s: %s' % (bs.norm, q.render(own, d)), own.loc(d),
                       'the per-byte time is an INTEGER quotient (%s) that is then multiplied by the packet size: the truncation error grows with the size, far beyond one tick, and the link runs too fast for bandwidths that do not divide 1e9' % ty,
                       'integer division is the last step')
     zb = [c for c in bs.calls() if q.callee_name(c) == 'boost::asio::post']
